@@ -1101,20 +1101,36 @@ def from_json(
                     and isinstance(imag, ak.layout.NumpyArray)
                     and len(imag.shape) == 1
                 ):
-                    return lambda: nplike.asarray(real) + nplike.asarray(imag) * 1j
+
+                    def convert():
+                        # not "real + imag * 1j": an infinite imaginary part
+                        # would turn the real part into nan (inf * 1j is nan+infj)
+                        out = nplike.empty(len(real), dtype=np.complex128)
+                        out.real = nplike.asarray(real)
+                        out.imag = nplike.asarray(imag)
+                        return ak.layout.NumpyArray(out)
+
+                    return convert
                 else:
                     raise ValueError(
                         "Complex number fields must be numbers"
                         + ak._util.exception_suffix(__file__)
                     )
-                return lambda: ak.layout.NumpyArray(real + imag * 1j)
             else:
                 return None
         else:
             return None
 
     if complex_imag_string is not None:
-        layout = ak._util.recursively_apply(layout, getfunction, pass_depth=False)
+        if isinstance(layout, ak.layout.Record):
+            # a single JSON object, which may itself be a complex number:
+            # convert it as a length-1 array and take the item back out
+            layout = ak._util.recursively_apply(
+                layout.array[layout.at : layout.at + 1], getfunction, pass_depth=False
+            )[0]
+        elif isinstance(layout, ak.layout.Content):
+            # (a single JSON scalar is not a layout: nothing to convert)
+            layout = ak._util.recursively_apply(layout, getfunction, pass_depth=False)
 
     return ak._util.maybe_wrap(layout, behavior, highlevel)
 
